@@ -60,6 +60,7 @@ FaultsOf(b) ==
     \cup (IF ~Bodiless(b) /\ Streamed(b)
           THEN {<<"stream", j>> : j \in 0..(IF Chosen(b) = "sse" THEN b.sse ELSE Len(LiveChunks(b)))} ELSE {})
     \cup {<<"send", j>> : j \in (IF IsAsgi(b) THEN 0 ELSE 1)..(NSends(b) - 1)}
+    \cup (IF ~Bodiless(b) /\ Chosen(b) = "sse" THEN {<<"disc", j>> : j \in 0..b.sse} ELSE {})     \* client disconnects
 
 MCInit ==
     \E iface \in Ifaces, code \in Codes, method \in Methods :
